@@ -712,7 +712,13 @@ func RunC10(ep *core.Episode) {
 	}
 
 	// ---- exclusivity over the whole history ----
-	for id, lg := range connLog {
+	var connIDs []int
+	for id := range connLog {
+		connIDs = append(connIDs, id)
+	}
+	sort.Ints(connIDs) // map order must not decide which violation is reported
+	for _, id := range connIDs {
+		lg := connLog[id]
 		last := map[string]int{}
 		for i, who := range lg {
 			if j, ok := last[who]; ok && j != i-1 {
